@@ -656,28 +656,55 @@ func check(ops []string) (detail string, lines []string) {
 			}
 		}
 	}
-	if i := hlib.FirstBad(ans, "ok"); i >= 0 {
+	// First failing answer.  A breach of the key-uniqueness clause with identity keys (a listed finding:
+	// the code does not maintain that clause) persists over the rest of the history, so it must not hide
+	// any other failure of the same case: another failure, wherever it occurs, is reported in preference.
+	describe := func(i int) string {
 		op := lines[i]
 		if j := strings.Index(op, " | "); j >= 0 {
 			op = op[:j]
 		}
-		return fmt.Sprintf("at op %d `%s`: %s", i, op, ans[i]), lines
+		return fmt.Sprintf("at op %d `%s`: %s", i, op, ans[i])
+	}
+	shared := -1
+	for i, a := range ans {
+		if strings.HasPrefix(a, "ok") || a == "skip" {
+			continue
+		}
+		if signature_(a) == sigSharedKey {
+			if shared < 0 {
+				shared = i
+			}
+			continue
+		}
+		return describe(i), lines
+	}
+	if shared >= 0 {
+		return describe(shared), lines
 	}
 	return "", lines
 }
 
+// sigSharedKey: the property's uniqueness clause read with identity keys fails on the real state.
+const sigSharedKey = "key-shared-node-id-as-subkey"
+
 func signature_(detail string) string {
-	switch {
-	case strings.Contains(detail, "SPEC "):
-		s := detail[strings.Index(detail, "SPEC ")+5:]
-		if j := strings.IndexAny(s, " ;"); j >= 0 {
-			s = s[:j]
+	clause := ""
+	if i := strings.Index(detail, "SPEC "); i >= 0 {
+		clause = detail[i+5:]
+		if j := strings.IndexAny(clause, " ;"); j >= 0 {
+			clause = clause[:j]
 		}
-		return "spec:" + s
+	}
+	switch {
+	case clause != "" && clause != sigSharedKey:
+		return "spec:" + clause
 	case strings.Contains(detail, "DIVERGE result"):
 		return "diverge:result"
 	case strings.Contains(detail, "DIVERGE state"):
 		return "diverge:state"
+	case clause == sigSharedKey: // only when model and implementation agree on everything else
+		return sigSharedKey
 	case strings.Contains(detail, "model-error"):
 		return "model-error"
 	}
@@ -1079,10 +1106,44 @@ func genRaw(r *hlib.Rng, nops int, res *hlib.Result) []string {
 		}
 		return p[:4]
 	}
+	// Some raw histories also send transactions at the hand-made state (which need not satisfy the
+	// invariant): this exercises the handlers' behaviour on inconsistent indexes, in particular the path
+	// of registerNode where the node exists but has no status record (SetNode persists, error returned).
+	mixed := r.Chance(1, 3)
+	if mixed {
+		ops = append(ops, "regentity 1 1 4,5,6 1 1", "regentity 2 2 4,5,6 2 1")
+	}
 	for i := 0; i < nops; i++ {
 		id := nodeKeys[r.Intn(3)]
 		o, have := cur[id]
 		switch {
+		case mixed && have && r.Chance(1, 4):
+			n := o
+			n.exp = 1 + uint64(r.Intn(5))
+			switch r.Intn(4) {
+			case 0:
+				n.p2p, n.tls = o.tls, o.p2p
+			case 1:
+				n.vrf = pool[r.Intn(len(pool))]
+			}
+			ss := []int{n.id}
+			for _, k := range []int{n.p2p, n.cons, n.tls, n.vrf} {
+				dup := false
+				for _, x := range ss {
+					dup = dup || x == k
+				}
+				if !dup {
+					ss = append(ss, k)
+				}
+			}
+			ops = append(ops, fmt.Sprintf("regnode %d %s %s 1", n.id, n, showNums(ss)))
+			res.Count("op:regnode-on-raw-state")
+		case mixed && have && r.Chance(1, 8):
+			ops = append(ops, fmt.Sprintf("setstatus %d %d", id, r.Intn(2)))
+			res.Count("op:setstatus")
+		case mixed && r.Chance(1, 10):
+			ops = append(ops, fmt.Sprintf("epoch %d", r.Intn(8)))
+			res.Count("op:epoch-on-raw-state")
 		case r.Chance(3, 4):
 			f := distinct()
 			n := nodeSpec{id: id, ent: entKeys[r.Intn(2)], cons: f[0], p2p: f[1], tls: f[2], vrf: f[3], exp: uint64(r.Intn(5)), roles: 8}
@@ -1128,6 +1189,18 @@ func genRaw(r *hlib.Rng, nops int, res *hlib.Result) []string {
 		}
 	}
 	return ops
+}
+
+// splitCases splits a replay/corpus file into its cases (each starts with a `new` line).
+func splitCases(ops []string) [][]string {
+	var out [][]string
+	for _, op := range ops {
+		if strings.HasPrefix(op, "new ") || len(out) == 0 {
+			out = append(out, nil)
+		}
+		out[len(out)-1] = append(out[len(out)-1], op)
+	}
+	return out
 }
 
 // ----------------------------------------------------------------------------- main
@@ -1193,7 +1266,9 @@ func main() {
 			fmt.Fprintln(os.Stderr, err)
 			os.Exit(2)
 		}
-		runOne(ops, 0, false)
+		for _, c := range splitCases(ops) {
+			runOne(c, 0, false)
+		}
 		res.Write(*out)
 		return
 	}
@@ -1201,8 +1276,10 @@ func main() {
 		ents, _ := os.ReadDir(*corpus)
 		for _, e := range ents {
 			if ops, err := hlib.ReadLines(*corpus + "/" + e.Name()); err == nil && len(ops) > 0 {
-				runOne(ops, 0, false)
-				res.Count("corpus")
+				for _, c := range splitCases(ops) {
+					runOne(c, 0, false)
+					res.Count("corpus")
+				}
 			}
 		}
 	}
